@@ -2296,7 +2296,7 @@ Record safe_inv (c : connp) : Prop := mk_safe_inv {
 Definition req_data_oof (data : option bytes) (len : nat) (c : connp) : bool :=
   if c_in_status c =? c_HTP_STREAM_STOP then false
   else if c_in_status c =? c_HTP_STREAM_ERROR then false
-  else if match c_in_tx c with None => negb (req_state_eqb (c_in_state c) REQ_IDLE) | Some _ => false end then false
+  else if match c_in_tx c with None => negb (req_state_eqb (c_in_state c) REQ_IDLE) && negb (c_in_status c =? c_HTP_STREAM_TUNNEL) | Some _ => false end then false
   else if (len =? 0)%nat && negb (c_in_status c =? c_HTP_STREAM_CLOSED) then false
   else
     let c := rq_set_in (fun k => k <| k_data := data |> <| k_len := len |> <| k_read := O |> <| k_consume := O |>
@@ -2335,14 +2335,15 @@ Proof.
   { intros cx -> Hn. split; [exact F|intros _; split; [constructor; assumption|split; [exact Kid|]]]. intros L0 Cl. destruct Hn; contradiction. }
   destruct (c_in_status c =? c_HTP_STREAM_STOP) eqn:E1; [injection E as <- <-; apply Id; [reflexivity|left; apply Z.eqb_eq in E1; rewrite E1; vm_compute; discriminate]|].
   destruct (c_in_status c =? c_HTP_STREAM_ERROR) eqn:E2; [injection E as <- <-; apply Id; [reflexivity|left; apply Z.eqb_eq in E2; rewrite E2; vm_compute; discriminate]|].
-  destruct (match c_in_tx c with None => negb (req_state_eqb (c_in_state c) REQ_IDLE) | Some _ => false end) eqn:Eg.
+  destruct (match c_in_tx c with None => negb (req_state_eqb (c_in_state c) REQ_IDLE) && negb (c_in_status c =? c_HTP_STREAM_TUNNEL) | Some _ => false end) eqn:Eg.
   { injection E as <- <-. split; [exact F|intros [_ Q]; cbn in Q; contradiction]. }
   destruct ((len =? 0)%nat && negb (c_in_status c =? c_HTP_STREAM_CLOSED)) eqn:E0.
   { injection E as <- <-. apply Id; [reflexivity|left]. apply andb_prop in E0. destruct E0 as [_ Q]. apply negb_true_iff in Q. apply Z.eqb_neq in Q. exact Q. }
   set (c1 := (rq_set_in _ c) <| c_in_chunk_count ::= S |> <| c_in_data_counter ::= Z.add (Z.of_nat len) |>) in *.
   set (gap := match data with None => (0 <? len)%nat | Some _ => false end) in *.
-  assert (Base : forall v, RI gap (v, c_out_state c, hook_out c, cur_core (c_out c)) (c1 <| c_out_status := v |>)).
-  { intros v. destruct T as [[B1 B2 B3 B4] [C1 C2 C3]]. split; [|intros _ _; reflexivity]. constructor.
+  assert (Base : forall v, (c_in_status c =? c_HTP_STREAM_TUNNEL) = false -> RI gap (v, c_out_state c, hook_out c, cur_core (c_out c)) (c1 <| c_out_status := v |>)).
+  { intros v Hnt. rewrite Hnt in Eg. cbn [negb] in Eg. rewrite andb_true_r in Eg.
+    destruct T as [[B1 B2 B3 B4] [C1 C2 C3]]. split; [|intros _ _; reflexivity]. constructor.
     - exact F.
     - unfold rq_pre, rq_wf, rq_inv, rq_len, rq_rd, rq_cs. cbn. repeat split; try lia; [|exact Ri].
       destruct data as [d|]; [apply Hd; reflexivity|exact I].
@@ -2353,13 +2354,14 @@ Proof.
     - split; [left; reflexivity|split; [reflexivity|split; [apply hk_le_refl|reflexivity]]]. }
   assert (Eqv : c1 = c1 <| c_out_status := c_out_status c |>) by (subst c1; destruct c; reflexivity).
   destruct (c_in_status c1 =? c_HTP_STREAM_TUNNEL) eqn:Et.
-  { injection E as <- <-. split; [exact F|intros _; split; [|split; [exact Kid|]]]; [rewrite Eqv; exact (safe_inv_of_RE _ _ _ (proj1 (Base _)))|].
+  { injection E as <- <-. split; [exact F|intros _; split; [|split; [exact Kid|]]].
+    { destruct T as [[B1 B2 B3 B4] [C1 C2 C3]]. constructor; [exact F|split; constructor; assumption|exact Ri]. }
     intros _ Cl. apply Z.eqb_eq in Et. change (c_in_status c1) with (c_in_status c) in Et. rewrite Cl in Et. vm_compute in Et. discriminate. }
   set (c2 := if c_out_status c1 =? c_HTP_STREAM_DATA_OTHER then _ else c1) in *.
   assert (H2 : exists v, RI gap (v, c_out_state c, hook_out c, cur_core (c_out c)) c2 /\ (v = c_out_status c \/ (c_out_status c = c_HTP_STREAM_DATA_OTHER /\ v = c_HTP_STREAM_DATA))).
   { subst c2. destruct (c_out_status c1 =? c_HTP_STREAM_DATA_OTHER) eqn:Eo.
-    - exists c_HTP_STREAM_DATA. split; [apply Base|right; split; [|reflexivity]]. apply Z.eqb_eq in Eo. exact Eo.
-    - exists (c_out_status c). split; [rewrite Eqv; apply Base|left; reflexivity]. }
+    - exists c_HTP_STREAM_DATA. split; [apply Base; exact Et|right; split; [|reflexivity]]. apply Z.eqb_eq in Eo. exact Eo.
+    - exists (c_out_status c). split; [rewrite Eqv; apply Base; exact Et|left; reflexivity]. }
   destruct H2 as (v & HI & Hv).
   destruct (rq_loop_safe gap _ _ c2 c' code HI E Oo) as [F' Hre].
   split; [exact F'|]. intros Sk. pose proof (Hre Sk) as R. split; [exact (safe_inv_of_RE _ _ _ R)|]. split.
